@@ -7,6 +7,8 @@ One output line per input line:  M<TAB>S<TAB>G<TAB>T
   G = finding signature the case falls in ("-" if none)
   T = branch tags (coverage accounting)
 -/
+import DtailModel.Generated.Code
+import DtailModel.Lemmas.GenAggregate
 import DtailModel.Model.Hex
 import DtailModel.Model.Wire
 import DtailModel.Model.Fast
@@ -1239,8 +1241,72 @@ def opC07Pipe : List String → Res
         ++ (if (srcs.splitOn ";").any (fun sp => (((sp.splitOn "x").getD 1 "0").toNat?.getD 0) > 32768) then ["long"] else [])) }
   | _ => bad
 
+/-! tie G: the translated Go functions run on the same scripts as the real ones -/
+
+def genExt : Go.Ext where
+  parseFloat v := match atoi v with | some n => (n, none) | none => (0, some (str "strconv.ParseFloat: parsing: invalid syntax"))
+  reMatch _ raw := containsSub raw (str "hit")
+  percentOf m t := (percentOf m.toNat t.toNat : Nat)
+
+def genBits (l : List Bool) : String := String.ofList (l.map fun b => if b then '1' else '0')
+
+def opGenStats : List String → Res
+  | [script] =>
+    let step (acc : Gen.Fs.readFile × List String) (op : String) : Gen.Fs.readFile × List String :=
+      let (f, out) := acc
+      match op.toList.head? with
+      | some 'p' => ({ f with stats := Gen.Fs.stats.updatePosition genExt f.stats }, out)
+      | some 'm' => ({ f with stats := Gen.Fs.stats.updateLineMatched genExt f.stats }, out)
+      | some 'n' => ({ f with stats := Gen.Fs.stats.updateLineNotMatched genExt f.stats }, out)
+      | some 't' => ({ f with stats := Gen.Fs.stats.updateLineTransmitted genExt f.stats }, out)
+      | some 'u' => ({ f with stats := Gen.Fs.stats.updateLineNotTransmitted genExt f.stats }, out)
+      | some 'x' =>
+        (match ((op.drop 1).toString.splitOn ",").map (·.toNat?.getD 0) with
+        | [mt, len, cap, skip] =>
+          let f := { f with canSkipLines := skip == 1 }
+          let raw := if mt == 1 then str "a hit\n" else str "miss\n"
+          let (f, l, ok) := Gen.Fs.readFile.transmittable genExt f raw len cap {}
+          let o := match l, ok with
+            | .new c n p sid, true => s!"T{n}/{p}/{String.fromUTF8! (ByteArray.mk sid.toArray)}/{(String.fromUTF8! (ByteArray.mk c.toArray)).trimAscii}"
+            | _, _ => "F"
+          (f, out ++ [o])
+        | _ => (f, out ++ ["bad"]))
+      | _ => (f, out)
+    let (f, out) := ((script.splitOn ";").filter (· ≠ "")).foldl step (({ globID := str "gid" } : Gen.Fs.readFile), [])
+    let r := joinWith "," out ++ s!";pos={f.stats.pos};lines={f.stats.lineCount};mc={f.stats.matchCount};tc={f.stats.transmitCount};m={genBits f.stats.matched};t={genBits f.stats.transmitted}"
+    { m := r, s := "-", t := joinWith "," ((if out.any (·.startsWith "T") then ["delivered"] else []) ++ (if out.contains "F" then ["not-delivered"] else [])) }
+  | _ => bad
+
+def genApply (s : Gen.Mapr.AggregateSet) (ops : String) : Gen.Mapr.AggregateSet × String :=
+  if ops = "-" then (s, "-") else
+  (ops.splitOn "/").foldl (fun (acc : Gen.Mapr.AggregateSet × String) op =>
+    match op.splitOn "," with
+    | [k, code, v, cl] => (match unhex k, code.toInt?, unhex v with
+      | some k, some code, some v =>
+        let (s', err) := Gen.Mapr.AggregateSet.Aggregate genExt acc.1 k code v (cl == "1")
+        (s', acc.2 ++ (if err.isSome then "1" else "0"))
+      | _, _, _ => (acc.1, acc.2 ++ "?"))
+    | _ => (acc.1, acc.2 ++ "?")) (s, "")
+
+def opGenAgg : List String → Res
+  | [xo, yo, qh] => match unhex qh with
+    | some qs => (match newQuery intOracle qs with
+      | .ok (some q) =>
+        let (x, ex) := genApply {} xo
+        let (y, ey) := genApply {} yo
+        let (x, merr) := Gen.Mapr.AggregateSet.Merge genExt x ⟨q.sel.map GenAgg.genSel⟩ y
+        let fd := joinWith "," (x.FValues.entries.map fun (k, v) => s!"{hexOf k}={v}")
+        let sd := joinWith "," (x.SValues.entries.map fun (k, v) => s!"{hexOf k}={hexOf v}")
+        { m := s!"errs={ex}|{ey};merge={if merr.isSome then "1" else "0"};S={x.Samples};F={fd};V={sd}", s := "-",
+          t := joinWith "," ((if ex.contains '1' ∨ ey.contains '1' then ["parse-error"] else []) ++ (if yo ≠ "-" then ["merge"] else [])) }
+      | _ => { m := "query-error" })
+    | none => bad
+  | _ => bad
+
 def dispatch (line : String) : Res :=
   match (line.splitOn " ").filter (· ≠ "") with
+  | "gen.stats" :: a => opGenStats a
+  | "gen.agg" :: a => opGenAgg a
   | "c01.reader" :: a => opC01Reader a
   | "c01.pipe" :: a => opC01Pipe a
   | "c01.e2e" :: a => opC01E2E a
